@@ -53,10 +53,13 @@ def families(rng, shape, box, dtype, fam, N):
     return p.astype(dtype)
 
 
-def tol_grid(ref_abs, shape, pos_dtype, grid_dtype):
+def tol_grid(ref_abs, shape, pos_dtype, grid_dtype, npart=0):
+    """Error bound per cell: position rounding (moves weight between neighbouring cells, hence the 27-cell sum A) plus the
+    rounding of the accumulation in the grid's own precision -- one rounding of at most eps/2 of the running cell value per
+    deposit, and a cell can receive at most one deposit per particle (npart; matters for pile-ups in float32 grids)."""
     A = mas.dilate(ref_abs)
     gmax = max(shape)
-    return (16 + 8 * gmax) * np.finfo(pos_dtype).eps * A + 4 * np.finfo(grid_dtype).eps * A + 1e-300
+    return (16 + 8 * gmax) * np.finfo(pos_dtype).eps * A + (4 + 0.5 * npart) * np.finfo(grid_dtype).eps * A + 1e-300
 
 
 def compare(run, got, ref, tol, desc, key):
@@ -184,7 +187,7 @@ def tsc_case(run, tsc, rng, k):
         refabs = mas.ref_paint(pref, shape, box, w, offset=offset, kind='tsc', absw=True)
         if pre is not None:
             refabs = refabs + np.abs(pre)
-        if compare(run, out, ref, tol_grid(refabs, shape, pos_in.dtype.type, gdt), desc, 'tsc-kernel'):
+        if compare(run, out, ref, tol_grid(refabs, shape, pos_in.dtype.type, gdt, npart=(N if gdt == np.float32 else 0)), desc, 'tsc-kernel'):
             return
     # a second call with the *same array objects* after modifying them in place (no state may survive between calls)
     if k % 9 == 5 and N >= 2 and pre is None and not outside:
@@ -208,7 +211,7 @@ def tsc_case(run, tsc, rng, k):
             run.count('same_object_second_call_checks')
             ref2 = mas.ref_paint(buf.astype(np.float64), shape, box, wbuf, offset=offset, kind='tsc')
             refabs2 = mas.ref_paint(buf.astype(np.float64), shape, box, wbuf, offset=offset, kind='tsc', absw=True)
-            if compare(run, g2, ref2, tol_grid(refabs2, shape, buf.dtype.type, gdt), dict(desc, second_call_same_arrays=True), 'tsc-state-between-calls'):
+            if compare(run, g2, ref2, tol_grid(refabs2, shape, buf.dtype.type, gdt, npart=(N if gdt == np.float32 else 0)), dict(desc, second_call_same_arrays=True), 'tsc-state-between-calls'):
                 return
     # non-negativity for non-negative weights
     if pre is None and out.min() < 0:
@@ -299,7 +302,7 @@ def cic_case(run, cic, rng, k):
             return compare(run, grid, ref, 0.0, desc, 'cic-kernel-exact')
     else:
         refabs = mas.ref_paint(pos, shape, box, w, kind='cic', absw=True) + (0 if pre is None else np.abs(pre))
-        if compare(run, grid, ref, tol_grid(refabs, shape, np.float64, gdt) + (16 + 8 * max(shape)) * np.finfo(pdt).eps * 0, desc, 'cic-kernel'):
+        if compare(run, grid, ref, tol_grid(refabs, shape, np.float64, gdt, npart=(N if gdt == np.float32 else 0)), desc, 'cic-kernel'):
             return
     if pre is None and N and grid.min() < 0:
         run.violation('cic-negative-deposit', dict(min=float(grid.min()), **desc))
